@@ -87,4 +87,12 @@ theorem wrong_size_file_is_not_the_object (cd se : Bool) (obj : Bytes) (s : LfsA
   unfold answerSmudge
   split <;> simp
 
+/-- tie to commands/command_filter_process.go: a pointer is remembered under its path — and thereby announced by list_available_blobs — only for a smudge that could be delayed AND was delayed -/
+theorem gen_pointer_remembered_only_when_delayed :
+    Gen.filterDelayedPointers =
+      [
+       -- ptr | case "smudge" && req.Header["can-delay"] == "1" && delayed
+       [112, 116, 114, 32, 124, 32, 99, 97, 115, 101, 32, 34, 115, 109, 117, 100, 103, 101, 34, 32, 38, 38, 32, 114, 101, 113, 46, 72, 101, 97, 100, 101, 114, 91, 34, 99, 97, 110, 45, 100, 101, 108, 97, 121, 34, 93, 32, 61, 61, 32, 34, 49, 34, 32, 38, 38, 32, 100, 101, 108, 97, 121, 101, 100]
+      ] := by decide
+
 end C14
